@@ -1961,6 +1961,9 @@ type vTimer struct {
 
 // fireNextTimer fires the earliest active virtual timer; false if there is none.
 func (ex *Exec) fireNextTimer(fr *frame) bool {
+	if ex.extra["noTimers"] != nil {
+		return false
+	}
 	var best *vTimer
 	for _, t := range ex.timers {
 		if !t.active {
